@@ -65,6 +65,17 @@ func main() {
 			tier = "quick"
 		}
 		os.Exit(runCheck(id, tier))
+	case "domain":
+		p, err := Load(quickPatterns, nil)
+		if err != nil {
+			fmt.Fprintln(os.Stderr, err)
+			os.Exit(2)
+		}
+		if len(os.Args) > 2 && os.Args[2] == "scope" {
+			domainScopeDebug(p)
+			return
+		}
+		domainDebug(p, os.Args[2:])
 	case "writers":
 		p, err := Load(quickPatterns, nil)
 		if err != nil {
